@@ -171,9 +171,12 @@ def gen_request(rng, k, node, nid, fault_rate, kinds):
         paths = ["noslash", "x/y"]
     op["path"] = rng.choice(paths)
     op["params"] = rng.choice([None, None, {}, {"a": "1"}, {"q": "x y&z=1", "u": "ü"},
-                               {"pairs": [["a", "1"], ["a", "2"]]}, {"n": 5, "b": True}])
+                               {"pairs": [["a", "1"], ["a", "2"]]}, {"n": 5, "b": True},
+                               {"e": "", "none": None, "slash": "a/b?c#d", "plus": "1+1=2", "pct": "100%"},
+                               {"pairs": []}, {"k" + str(i): "v" * 40 for i in range(12)}])
     op["data"] = rng.choice([None, None, {"bytes": "raw\u0000ÿ"}, "str ü", "", {"k": [1, 2, {"z": None}]},
-                             [1, "a"], 0, {}, {"arg": 42}])
+                             [1, "a"], 0, {}, {"arg": 42}, {"bytes": ""}, False, [], 1.5, "x" * 3000,
+                             {"nested": {"deep": [{"a": [1, [2, [3, {"ü": "ü"}]]]}]}}, "{\"already\": \"json\"}"])
     hs = [None, None, {}, {"X-A": "1"}, {"Content-Type": "text/plain"}, {"X-Request-ID": f"cid-{k}"},
           {"X-A": "2", "Accept": "*/*"}]
     if not node.auth:
